@@ -392,11 +392,16 @@ func genCase(t *rapid.T, stratum int) routeCase {
 		nb = 2 + stratum%3
 	}
 	heavy := stratum == 1 || rapid.IntRange(0, 3).Draw(t, "heavyversions") == 0
+	c.SASL = rapid.IntRange(0, 4).Draw(t, "sasl") == 0
 	m := &model{bootstrap: map[int32]bool{}, topics: map[string][]int32{}, coords: map[string]int32{}, nextID: int32(nb + 1)}
 	for i := 1; i <= nb; i++ {
 		b := brokerSpec{ID: int32(i), Rack: rapid.SampledFrom([]string{"", "", "r1", "r2"}).Draw(t, fmt.Sprintf("rack%d", i))}
 		if rapid.IntRange(0, 4).Draw(t, fmt.Sprintf("b%dplain", i)) != 0 || heavy {
 			b.Versions = genVersions(t, fmt.Sprintf("b%d", i), heavy)
+		}
+		if c.SASL {
+			// which handshake the broker speaks: v0 only (raw tokens follow) or v0-v1 (framed SaslAuthenticate)
+			b.Versions = append(b.Versions, verRange{17, 0, int16(rapid.IntRange(0, 1).Draw(t, fmt.Sprintf("b%dhandshake", i)))})
 		}
 		c.Brokers = append(c.Brokers, b)
 		m.live = append(m.live, int32(i))
